@@ -291,3 +291,44 @@ Proof.
   pose proof (pinned_le_iters h ch Hwf) as Hp. rewrite Hit in Hp. cbn [length] in Hp.
   split; [exact Hit|]. split; [lia|]. rewrite (chain_length h ch Hwf). lia.
 Qed.
+
+(** * Reference counts add up to the number of open iterators *)
+
+Lemma sum_cnt_cells (l : list cell) : NoDup (map c_stamp l) -> forall its,
+  (forall i s, In (i, s) its -> In s (map c_stamp l)) ->
+  fold_right (fun c acc => cnt its (c_stamp c) + acc) 0 l = Z.of_nat (length its).
+Proof.
+  intros Hnd. induction its as [|[i s] t IH]; intros Hall.
+  - cbn [length]. clear. induction l as [|c l IH]; [reflexivity|]. cbn [fold_right]. rewrite IH. reflexivity.
+  - assert (Hone : forall l0, NoDup (map c_stamp l0) ->
+              fold_right (fun c acc => cnt ((i, s) :: t) (c_stamp c) + acc) 0 l0 =
+              fold_right (fun c acc => cnt t (c_stamp c) + acc) 0 l0 + (if in_dec Nat.eq_dec s (map c_stamp l0) then 1 else 0)).
+    { induction l0 as [|c l0 IH0]; intros Hnd0; [reflexivity|]. cbn [fold_right map] in *.
+      inversion Hnd0 as [|? ? Hni Hnd1]; subst. rewrite (IH0 Hnd1), cnt_cons. unfold bump.
+      destruct (in_dec Nat.eq_dec s (c_stamp c :: map c_stamp l0)) as [Hin|Hnin];
+        destruct (in_dec Nat.eq_dec s (map c_stamp l0)) as [Hin0|Hnin0];
+        destruct (Nat.eqb_spec (c_stamp c) s) as [E|E]; try lia; exfalso;
+        solve [ apply Hni; rewrite E; exact Hin0
+              | destruct Hin as [Hin|Hin]; [congruence|contradiction]
+              | apply Hnin; left; exact E
+              | apply Hnin; right; exact Hin0 ]. }
+    rewrite (Hone l Hnd), IH by (intros i0 s0 H0; apply (Hall i0 s0); right; exact H0).
+    destruct (in_dec Nat.eq_dec s (map c_stamp l)) as [_|Hn]; [cbn [length]; lia|].
+    exfalso. apply Hn. apply (Hall i s). left. reflexivity.
+Qed.
+
+Lemma R_sum_ref s o : R s o -> sum_ref s = Z.of_nat (length (iters s)).
+Proof.
+  intros HR. rewrite (R_open _ _ HR). destruct HR as (c & zs & Hr & H2).
+  rewrite (proj2 (count_deleted_pinned _ _ _ Hr)). unfold c_sum_ref.
+  rewrite <- (trel_length _ _ _ (r2_iters _ _ H2)).
+  pose proof (cinv_of_R2 _ _ H2) as Hc.
+  rewrite <- (sum_cnt_cells (cells c) (ci_nodup _ Hc) (citers c)).
+  - pose proof (cells_from_ref (cnt (citers c)) (entries o) 0%nat) as Hrf. rewrite <- (r2_cells _ _ H2) in Hrf.
+    induction Hrf as [|x l Hx _ IH]; [reflexivity|]. cbn [fold_right]. rewrite Hx, IH. reflexivity.
+  - intros i st Hin. destruct (ci_iters _ Hc i st Hin) as (cl & Hcl & Hs & _). rewrite <- Hs. apply in_map. exact Hcl.
+Qed.
+
+Theorem refs_are_iters : forall h ch, wf_hist h ->
+  sum_ref (reach ch h) = Z.of_nat (length (iters (reach ch h))).
+Proof. intros h ch Hwf. eapply R_sum_ref. apply R_reach. exact Hwf. Qed.
